@@ -195,9 +195,9 @@ Proof. vm_compute. tauto. Qed.
 Example ex_steps : map (fun i => occ i ex_sched) [0; 1; 2; 3; 4; 5]%nat = [5; 4; 4; 5; 2; 4]%nat.
 Proof. vm_compute. reflexivity. Qed.
 
-(* the oracle on the observations of that run: accepted; and it is not vacuous -- with a lifetime of 10 instead of 1000
-   ... the same observations are still fine (nothing was served from the cache across 10), but request 4 claiming the
-   data of fetch 4 is rejected (code 3), and a reply under another name is rejected (code 2) *)
+(* the oracle on the observations of that run (lifetime 1000, slack 10): accepted; and it is not vacuous -- a reply to
+   request 4 claiming the data of the fetch made at 4 (long expired at 2100) is rejected with code 3, a reply to
+   request 3 under another group name with code 2 *)
 Definition ex_qs : list oreq :=
   [mkOreq [97; 32; 98] [99] true 3; mkOreq [97] [98; 32; 99] true 1; mkOreq [97] [98; 32; 99] false 2;
    mkOreq [97] [98; 32; 99] true 2000; mkOreq [97] [98; 32; 99] true 2100].
